@@ -24,7 +24,7 @@ CHUNK = 1000
 RUNS = {"quick": 0, "thorough": 0}  # sizes are fixed by PLAN below
 PLAN = {
     "quick": {
-        "tree": {(2, 2): 60000, (2, 3): 150000, (3, 2): 150000, (3, 3): 240000},
+        "tree": {(2, 2): 60000, (2, 3): 300000, (3, 2): 300000, (3, 3): 320000},
         "edge": {(4, 4): 20000, (3, 5): 20000, (5, 5): 16000},
         "owned_fraction": 0.25,
         "history_fraction": 0.25,
@@ -48,7 +48,7 @@ RULE = (
     "over all shapes; tests: every tree appears, chi-square vs equal frequencies (tree level), Hoeffding bound on every Kirchhoff edge marginal"
 )
 LEVEL_TEXT = (
-    "Statistical: outputs of many seeded RNG streams are compared with the exact uniform-spanning-tree model (all trees enumerated on small grids, Kirchhoff edge marginals on larger ones). False-alarm probability fixed at 1e-9 per invocation; biases of a few percent in any tree class or edge marginal are far outside that band at these sample sizes. A quarter of the streams start from a process that has already generated other grids (shape array re-used in place by the caller or built anew), and are tested as a group of their own; a further group consists of many short process lifetimes (each seeds the RNGs with its own seed and draws its first two mazes only), which is what a job array or a worker per task produces. Evidence, not proof. Quick tier: 60 000 / 150 000 / 240 000 draws on 2x2 / 2x3+3x2 / 3x3 (a +-5 % bias on 2x3 trees is rejected at p ~ 1e-15).",
+    "Statistical: outputs of many seeded RNG streams are compared with the exact uniform-spanning-tree model (all trees enumerated on small grids, Kirchhoff edge marginals on larger ones). False-alarm probability fixed at 1e-9 per invocation; biases of a few percent in any tree class or edge marginal are far outside that band at these sample sizes. A quarter of the streams start from a process that has already generated other grids (shape array re-used in place by the caller or built anew), and are tested as a group of their own; a further group consists of many short process lifetimes (each seeds the RNGs with its own seed and draws its first two mazes only), which is what a job array or a worker per task produces. Evidence, not proof. Quick tier: 60 000 / 300 000 / 320 000 draws on 2x2 / 2x3+3x2 / 3x3 from the seeded real RNG, a quarter of that each from the owned RNG and from processes with a history, 8 000-24 000 from short process lifetimes.",
     "Trusted: NumPy's legacy global RNG is an adequate uniform source; chi-square tail approximation (expected counts >= 125 per cell); Hoeffding's inequality (exact, conservative).",
 )
 
